@@ -36,6 +36,21 @@ let () = Reg.register "ORDER" order_h
 let pv_str (l : n list) : string =
   String.concat " " (List.map (fun m -> cls (move_to_string m) string_of_bytes) l)
 
+(* what the independent FIDE specification (Rules/Fide.v) says about the root: its legal moves and the mating ones, in UCI
+   text; appended behind " ## " - not part of the observable that is compared with the implementation, read by the runner's
+   judge (the answer must be one of the legal moves, and a mating one when there is one) *)
+let spec_info (root : position) : string =
+  match m_to_fen root with
+  | Ok fen ->
+    (match read_fen (Posio.text_of_string (string_of_bytes fen)) with
+     | Some s0 ->
+       let ms = legal_moves_fast s0 in
+       let txt m = Posio.string_of_text (show_move m) in
+       let mates = List.filter (fun m -> let s1 = apply s0 m in legal_moves_fast s1 = [] && in_check s1 s1.b_turn) ms in
+       Printf.sprintf " ## legal=%s mates=%s" (String.concat "," (List.map txt ms)) (String.concat "," (List.map txt mates))
+     | None -> " ## nospec")
+  | _ -> " ## nospec"
+
 let search_gen repaired (line : string) : string =
   let tt = ref m_tt_init and cache = ref [] in
   let outs = List.map (fun sp ->
@@ -67,7 +82,7 @@ let search_gen repaired (line : string) : string =
                  | EWindow (a, b, s) -> Printf.sprintf "W %d %d %d" (int_of_z a) (int_of_z b) (int_of_z s)) st'.s_out in
                let bs = if int_of_n best = 0 then "0000" else cls (move_to_string best) string_of_bytes in
                Printf.sprintf "best=%s nodes=%d polls=%d ev: %s" bs (int_of_n st'.s_nodes) (int_of_n st'.s_polls)
-                 (String.concat " / " evs)
+                 (String.concat " / " evs) ^ spec_info root
              | RCancel -> "cancel"
              | RPanic -> "panic"
              | ROutOfFuel -> "hang"))
